@@ -292,6 +292,7 @@ func runC09(tier string) *vf.Run {
 	run.Floor("both_shape_reps", 27*4*run.Pick(50, 200)/2)
 	// the reader's half: the lookups of the real reader.TargetClient against a fake Milvus server (c09_target.go)
 	runC09Target(run)
+	c09MultiFlush(run)
 	run.Rule += " PLUS the target-lookup part (counters target_lookup_*): the real reader.TargetClient against a fake Milvus server over gRPC whose four databases all hold collections a, b, c with their own ids and partition ids; GetCollectionInfo and GetPartitionInfo for every source (database, collection) under 11 mapping tables (none, exact, whole database, default database, exact + whole database, chains of databases - also built up by two tasks -, swapped collections, swapped databases, chained exact entries), repeated because the table is ranged in map order; every DescribeCollection / ShowPartitions call observed at the server must be routed to the mapped database and name the mapped collection (mapping applied once), and the returned id, channels and partition ids must be the mapped object's, under the source names."
 	run.Assumptions = append(run.Assumptions, "target-lookup part: the routing database is what the fake server reads from the `dbname` gRPC metadata of each call; the reference mapping is exact entry, else whole-database entry, else unchanged, applied once")
 	return run
